@@ -118,6 +118,8 @@ def ESt.init (cfg : ECfg) (vars : List Nat) (glob : List (Option Nat)) : ESt :=
 def ESt.idx (s : ESt) : Nat := s.frames.length + s.over
 
 def setWritten (f : EFrame) : EFrame := { f with b := { f.b with written := true } }
+/-- rstack->end_time = mcount_gettime() -/
+def setEnd (f : EFrame) (t : Nat) : EFrame := { f with b := { f.b with endT := t } }
 
 /-! ### save_trigger_read -/
 
@@ -293,13 +295,23 @@ def saveArgument (cfg : ECfg) (f : EFrame) : EFrame :=
   | some n => if n ≤ ARG_MAX then { f with argFl := true, argSz := n } else f
   | none => f
 
+def setReadFl (f : EFrame) : EFrame := { f with readFl := true }
+
+/-- save_argument and save_trigger_read(…, false) on the frame just pushed; `midx` = mtdp->idx -/
+def entryArea (cfg : ECfg) (f : EFrame) (matched argok : Bool) (midx : Nat) (o : Obs) : EFrame :=
+  let f2 := if argok then saveArgument cfg f else f
+  let mask := if matched then cfg.read f.b.addr else 0
+  if mask != 0 then setReadFl (saveRead cfg f2 mask midx false o) else f2
+
+/-- save_trigger_read(…, true) at exit -/
+def exitArea (cfg : ECfg) (f : EFrame) (midx : Nat) (o : Obs) : EFrame :=
+  if f.readFl then saveRead cfg f (cfg.read f.b.addr) midx true o else f
+
 /-- the part of mcount_entry_filter_record that runs for a recorded frame while tracing is on:
     save_argument, save_trigger_read, save_watchpoint and the flush for asynchronous events.
     `f` is the frame just pushed, `rest` the frames below, `s` the state without it. -/
 def entryEvents (cfg : ECfg) (s : ESt) (f : EFrame) (rest : List EFrame) (matched argok : Bool) (o : Obs) : ESt :=
-  let f2 := if argok then saveArgument cfg f else f
-  let mask := if matched then cfg.read f.b.addr else 0
-  let f3 := if mask != 0 then { saveRead cfg f2 mask (rest.length + 1) false o with readFl := true } else f2
+  let f3 := entryArea cfg f matched argok (rest.length + 1) o
   let s1 := if cfg.watch then saveWatch cfg s f3.b rest.length o else s
   if hasAsync s1.pend then { s1 with frames := f3 :: rest }.recorded (recordTraceE cfg false (f3 :: rest) s1.pend)
   else { s1 with frames := f3 :: rest }
@@ -334,7 +346,7 @@ def entryFilterRecordE (cfg : ECfg) (s : ESt) (tr : Trigger) (matched argok : Bo
 /-- the tail of mcount_exit_filter_record for a recorded frame while tracing is on -/
 def exitEvents (cfg : ECfg) (s : ESt) (f : EFrame) (rest : List EFrame) (timeFilter : Nat) (retv : Bool)
     (o : Obs) : ESt :=
-  let f1 := if f.readFl then saveRead cfg f (cfg.read f.b.addr) (rest.length + 1) true o else f
+  let f1 := exitArea cfg f (rest.length + 1) o
   let s1 := if cfg.watch then saveWatch cfg s f1.b rest.length o else s
   let s2 := { s1 with frames := f1 :: rest }
   if (f.b.endT - f.b.start > timeFilter && (!cfg.base.callerMode || f.b.caller)) || f.b.written || f.b.trace then
@@ -383,7 +395,7 @@ def exitE (cfg : ECfg) (s : ESt) (now : Nat) (o : Obs) : ESt :=
   match s.frames with
   | [] => s
   | f :: rest =>
-    let f1 := if f.b.cyg && f.b.norecord then f else { f with b := { f.b with endT := now } }
+    let f1 := if f.b.cyg && f.b.norecord then f else setEnd f now
     let s1 := exitFilterRecordE cfg { s with frames := f1 :: rest } (!f.b.cyg) o
     { s1 with frames := s1.frames.tail }
 
